@@ -24,10 +24,7 @@ func runC02(x *mc.X) {
 	maxAge := mc.Pick(x, "stored.max-age", []string{"10", "0"})
 	swr := x.Choose("stored.swr", 2) == 1
 	sie := x.Choose("stored.sie", 2) == 1
-	immutable := false
-	if x.Tier() == "thorough" {
-		immutable = x.Choose("stored.immutable", 2) == 1
-	}
+	immutable := x.Choose("stored.immutable", 2) == 1
 	validators := mc.Pick(x, "stored.validators", []string{"etag", "lm", "both", "none"})
 	elapsed := mc.Pick(x, "elapsed", []int64{2, 10, 20})
 	reqDir := mc.Pick(x, "req.directive", c02ReqDirs)
